@@ -1,5 +1,5 @@
 (* Props/C09.v -- property theorems for C09 (editTimestamps, appendTier). *)
-From PraatIO Require Import Tier.TierModel Tier.CtorProofs Tier.EraseProofs Tier.EditProofs Textgrid.TgModel Textgrid.TgProofs.
+From PraatIO Require Import Tier.TierModel Tier.CtorProofs Tier.EraseProofs Tier.EditProofs Textgrid.TgModel Textgrid.TgProofs Textgrid.TgAppendProofs.
 
 Theorem C09_edit_entries o l : filter_map (edit1 o) l = edit_spec_ents o l.
 Proof. exact (edit_entries o l). Qed.
@@ -71,3 +71,15 @@ Theorem C09_append_textgrid_names_unique A B only g' :
   NoDup (names A) -> NoDup (names B) -> tg_append A B only = Ok g' -> NoDup (names g').
 Proof. exact (tg_append_nodup A B only g'). Qed.
 Print Assumptions C09_append_textgrid_names_unique.
+
+(* ... and what each tier of the result is: a tier only A has is A's tier as it was; a tier B has is B's tier given the
+   joint span [A.min, A.max + B.max] and moved by A's duration with editTimestamps -- every entry by exactly that
+   amount (C09_pure_shift_when_nothing_clipped: nothing is clipped by a non-negative offset) -- and, when A has a tier
+   of that name, appended to A's entries of that name *)
+Theorem C09_append_textgrid_tier A B only g' n mn ma mb :
+  NoDup (names A) -> NoDup (names B) ->
+  tgmin A = Some mn -> tgmax A = Some ma -> tgmax B = Some mb ->
+  tg_append A B only = Ok g' -> In n (final_names A B only) ->
+  appended ma mn (ma + mb) B (find_tier n (tiers A)) n (find_tier n (tiers g')).
+Proof. exact (tg_append_tier A B only g' n mn ma mb). Qed.
+Print Assumptions C09_append_textgrid_tier.
